@@ -936,18 +936,19 @@ func DeleteHistoricVersions(ctx context.Context, s *DB, before time.Time) error 
 		return fmt.Errorf("get historic roots: %w", err)
 	}
 	for _, l := range nodes {
+		// the node cache doubles as the record of what is already stored:
+		// forget the node, or a later commit that produces the same node
+		// again will not upload it. Forget it before the request: a DELETE
+		// whose answer is lost may still have been carried out.
+		if forgetful, ok := s.cfg.NodeCache.(interface{ Remove(key interface{}) }); ok {
+			forgetful.Remove(fmt.Sprintf("%s/%s", s.persist.NodeURLPrefix(), l))
+		}
 		_, err := s.s3Client.DeleteObjectWithContext(ctx, &s3.DeleteObjectInput{
 			Key:    aws.String(s.persist.(*persistEncryptor).Prefix + l),
 			Bucket: aws.String(s.persist.(*persistEncryptor).BucketName),
 		})
 		if err != nil {
 			return fmt.Errorf("delete node: %s: %w", l, err)
-		}
-		// the node cache doubles as the record of what is already stored:
-		// forget the node, or a later commit that produces the same node
-		// again will not upload it
-		if forgetful, ok := s.cfg.NodeCache.(interface{ Remove(key interface{}) }); ok {
-			forgetful.Remove(fmt.Sprintf("%s/%s", s.persist.NodeURLPrefix(), l))
 		}
 	}
 	for _, l := range roots {
